@@ -41,6 +41,32 @@ HDR = z3.Concat(R('#'), z3.Loop(R('.'), 0, 3), NAME_RE, R(':'),
 INTVAL = z3.Concat(z3.Option(R('-')), z3.Plus(z3.Range('0', '9')))
 
 
+# --- specification of the parsed options: a fold over the pairs -------------
+ArrV = z3.ArraySort(z3.StringSort(), Val)
+ArrB = z3.ArraySort(z3.StringSort(), z3.BoolSort())
+from pyvc.values import SeqString as _SL
+F_PO_arr = z3.Function('ParseOptsVal', _SL, z3.IntSort(), ArrV)
+F_PO_dom = z3.Function('ParseOptsDom', _SL, z3.IntSort(), ArrB)
+MAX_INT_DIGITS = 4300
+
+
+def conv_value(v):
+    """Integer-valued option values are reported as integers (C11);
+    CPython refuses to convert more than 4300 digits - stated assumption."""
+    return z3.If(z3.And(z3.InRe(v, INTVAL), z3.Length(v) <= MAX_INT_DIGITS),
+                 Val.IntV(M.F_IntOfStr(v)), Val.StrV(v))
+
+
+def po_unfold(L, k):
+    e = L_at(L, k)
+    key = M.F_SplitHead(e, S('='))
+    val = M.F_SplitTail(e, S('='))
+    return z3.And(
+        F_PO_arr(L, k + 1) == z3.Store(F_PO_arr(L, k), key, conv_value(val)),
+        F_PO_dom(L, k + 1) == z3.Store(F_PO_dom(L, k), key,
+                                       z3.BoolVal(True)))
+
+
 def symset(it, name):
     arr = it.ctx.fresh(name, z3.ArraySort(z3.StringSort(), z3.BoolSort()))
     return VSymSet(arr)
@@ -69,12 +95,34 @@ def code_pair_lang(engine_cls):
     return z3.Concat(z3.Plus(nospc), R('='), z3.Plus(noeq))
 
 
-def register(engine):
+def install_manual_hints():
+    from pyvc import symex
+    # which facts the two pair-level rejection obligations need (a hint only:
+    # it selects a subset of the assumptions)
+    symex.MANUAL_HINTS[NAME + '#raises.DiffXParseError.internal'] = {
+        'include': ['elem!', 'SplitHead', 'SplitTail', 'k!', 'InRe(pre!'],
+        'exclude': ['Contains(g4', 'Contains(At_', 'wj!', 'Count(', 'Join(',
+                    'IndexOf(pre', 'sk_', 'ParseOpts', 'dmap', 'ddom'],
+    }
+
+
+def register(engine, strict=True):
+    install_manual_hints()
+    from pyvc import symex as _sx
+    _sx.MANUAL_HINTS[NAME + '#loop1.preserve.options_fold'] = {
+        'include': ['ParseOpts', 'elem!', 'SplitTail', 'dmap', 'ddom',
+                    'k!'],
+        'exclude': ['wj!', 'Contains(', 'Count(', 'Join(', 'Len_StrList(Split(g4!20, ", ")) - ',
+                    '-1 + Len_StrList'],
+    }
     reader_until.register(engine)
     from pyvc import extract
     DiffXParseError = extract.load_module('pydiffx.errors')[0].DiffXParseError
     engine.exception_hooks[DiffXParseError] = parse_error_hook
     Q = code_pair_lang(None)
+    rd = extract.load_module('pydiffx.reader')[0].DiffXReader
+    KEYM = rx.Translator(rd._HEADER_OPTION_KEY_RE).match_lang('match')
+    VALM = rx.Translator(rd._HEADER_OPTION_VALUE_RE).match_lang('match')
 
     def prepare_opts_loop(it):
         """Before the option loop: the options dict becomes symbolic, the
@@ -102,6 +150,40 @@ def register(engine):
         ctx.assume_forall(j, z3.Implies(
             z3.And(j >= 0, j < n), z3.Contains(d, L_at(L, j))),
             defaults=[])
+        # direction 2 of C11 (strict mode): a line of the grammar has
+        # options in OPTS (lemma hdr_unique_options), and then every split
+        # element is a PAIR (lemma split_factors for PAIR)
+        hdr = fr.locals['header']
+        ctx.assume(z3.Implies(z3.InRe(hdr.e, HDR), z3.InRe(d, OPTS)))
+        ctx.assume_forall(j, z3.Implies(
+            z3.And(j >= 0, j < n, z3.InRe(d, OPTS)),
+            z3.InRe(L_at(L, j), PAIR)), defaults=[])
+        # pair-level lemmas (proved in props/C11), instantiated by matching
+        # at every pair the path talks about
+        e_j = L_at(L, j)
+        h_j = M.F_SplitHead(e_j, S('='))
+        t_j = M.F_SplitTail(e_j, S('='))
+        split_ok = z3.And(e_j == z3.Concat(h_j, S('='), t_j),
+                          z3.Not(z3.Contains(h_j, S('='))))
+        rng_j = z3.And(j >= 0, j < n)
+        ctx.assume_forall(j, z3.Implies(
+            z3.And(rng_j, split_ok, z3.InRe(e_j, PAIR)),
+            z3.And(z3.InRe(h_j, KEY), z3.InRe(t_j, VALUE))), defaults=[])
+        ctx.assume_forall(j, z3.Implies(
+            z3.And(rng_j, z3.InRe(h_j, KEY)), z3.InRe(h_j, KEYM)),
+            defaults=[])
+        ctx.assume_forall(j, z3.Implies(
+            z3.And(rng_j, z3.InRe(t_j, VALUE)), z3.InRe(t_j, VALM)),
+            defaults=[])
+        ctx.assume_forall(j, z3.Implies(
+            z3.And(rng_j, split_ok, z3.InRe(e_j, Q), z3.InRe(h_j, KEYM),
+                   z3.InRe(t_j, VALM)), z3.InRe(e_j, PAIR)), defaults=[])
+        # ParseOpts: definitional unfolding (fold over the pairs)
+        ea, ed = M.empty_sym_dict()
+        ctx.assume(F_PO_arr(L, z3.IntVal(0)) == ea)
+        ctx.assume(F_PO_dom(L, z3.IntVal(0)) == ed)
+        ctx.assume_forall(j, z3.Implies(z3.And(j >= 0, j < n),
+                                        po_unfold(L, j)), defaults=[])
         # join_factors(PAIR): all elements in PAIR  =>  s in PAIR(, PAIR)*
         j0 = ctx.fresh_int('wj')
         ctx.inst_terms.append(j0)
@@ -134,6 +216,7 @@ def register(engine):
                 invariant=[
                     ('pairs_ok', 'forall(lambda j: in_re(pairs[j], PAIR), '
                                  '0, _k)'),
+                    ('options_fold', 'options_are(options, pairs, _k)'),
                 ],
                 havoc=['options.sym'],
             ),
@@ -163,10 +246,19 @@ def register(engine):
                              'in_re(section_type, NAMES_RE))'),
             ('grammar_opts', 'implies(result is not None and options_str, '
                              'in_re(bytes_of(options_str), OPTS))'),
+            ('options_reported',
+             'implies(result is not None and options_str, options_are('
+             'result["options"], pairs, len(pairs)))'),
             ('level_dots', 'implies(result is not None, result["level"] == '
                            'len(m.group("level")))'),
         ],
         raises={DiffXParseError: 'exc_linenum == old(self._linenum)'},
+        # C11, second direction: a line of the grammar whose id is allowed
+        # is never rejected
+        internal_raises={DiffXParseError:
+                         'not strict or not in_re(header, HDR) or '
+                         '(bound("section_id") and '
+                         'section_id not in valid_sections)'},
         exc_attrs={DiffXParseError: {'linenum': Int(), 'column': Box()}},
     )
     from pyvc.values import VConc, VFunc, VBox
@@ -184,6 +276,26 @@ def register(engine):
         t = f_bytes_of(it, args, kw).e
         return VStr(z3.If(z3.Length(t) > 0, z3.Concat(S(' '), t), S('')),
                     True)
+    def f_options_are(it, args, kw):
+        oc = it.ctx.cell(args[0])
+        L = it.ctx.cell(args[1]).e
+        k = args[2].e
+        if oc.sym is None:
+            arr, dom = M.empty_sym_dict()
+            if oc.items:
+                return VBool(False)
+        else:
+            arr, dom = oc.sym
+        return VBool(z3.And(arr == F_PO_arr(L, k), dom == F_PO_dom(L, k)))
+    from pyvc.values import VBool
+    engine.spec_funcs['options_are'] = VFunc(f_options_are, 'options_are')
+
+    def f_bound(it, args, kw):
+        from pyvc.values import concrete_str
+        return VBool(concrete_str(args[0]) in it.ctx.frame.locals)
+    from pyvc.values import VBool
+    engine.spec_funcs['bound'] = VFunc(f_bound, 'bound')
+    engine.spec_funcs['strict'] = VBool(bool(strict))
     engine.spec_funcs['bytes_of'] = VFunc(f_bytes_of, 'bytes_of')
     engine.spec_funcs['sp_opts'] = VFunc(f_sp_opts, 'sp_opts')
     engine.spec_funcs['DOTS'] = VConc(z3.Loop(R('.'), 0, 3))
